@@ -1097,5 +1097,11 @@ def shrink(c):
         yield dict(c, affine=[str(x) for x in [1, 0, 0, 0, 1, 0, 0, 0, 1, 0, 0, 0]])
 
 
+def extra_obligations(work):
+    # T-int: the integer helpers this model mirrors, re-translated from the current source
+    import translate_int
+    return translate_int.obligations(work, translate_int.FOR['C08'])
+
+
 if __name__ == '__main__':
     sys.exit(common.main(sys.modules[__name__]))
